@@ -266,6 +266,10 @@ class Verifier:
                 else:
                     raise Unsupported(f'parameter {p} has no spec and no default')
         init_env = dict(st.env)
+        # records are mutable: old_<name> is the record as it was on entry (its fields then)
+        for k0, v0 in list(init_env.items()):
+            if isinstance(v0, SObj):
+                init_env['old_' + k0] = SObj(v0.cls, dict(v0.fields), none_if=v0.none_if)
         # snapshot 'old' values of array inputs for frame postconditions
         for r in c.requires:
             st.assume(ex.eval_cl(r, st))
